@@ -1392,6 +1392,8 @@ class Exec:
                 self_ty = mi.group(1)
         else:
             self_ty, trait = m.group(1), m.group(2)
+        if self_ty.lstrip('&').startswith('<'):
+            return None           # an associated-type projection (`<I as IntoIterator>::IntoIter`): not a nameable impl of this crate
         sb = base_type(self_ty)
         out = []
         if trait is not None and re.match(r"^&*(?:'\w+ )?(?:mut )?(std|core|alloc)::", self_ty) and '::' not in trait.split('<')[0]:
